@@ -252,31 +252,115 @@ def gen_forcing_case(rng):
     return dict(nx=nx, ny=ny, N=N, flat=flat, dt=dt, frame_times=ft, mode=mode, sched=sched, subgrid=sub, land=land)
 
 
+def flat_w_interior(pn, pm, u, v, z_w):
+    """The statement's flat-bottom form, written out independently of gridforce.compute_w: per layer the net outflow D of the
+    layer transports Hz*u/pn, Hz*v/pm of a cell, summed from the bed, minus the depth-uniform (free-surface) part, times pm*pn.
+    Interior cells only: shape (K+1, J-2, I-2)."""
+    Hz = z_w[1:] - z_w[:-1]
+    Hzu = 0.5 * (Hz[:, :, :-1] + Hz[:, :, 1:]); Hzv = 0.5 * (Hz[:, :-1, :] + Hz[:, 1:, :])
+    Fu = Hzu * u * 2 / (pn[:, :-1] + pn[:, 1:]); Fv = Hzv * v * 2 / (pm[:-1, :] + pm[1:, :])
+    D = (Fu[:, 1:-1, 1:] - Fu[:, 1:-1, :-1]) + (Fv[:, 1:, 1:-1] - Fv[:, :-1, 1:-1])
+    S = np.concatenate([np.zeros((1,) + D.shape[1:]), np.cumsum(D, axis=0)])
+    zz = z_w[:, 1:-1, 1:-1]
+    return (pm * pn)[1:-1, 1:-1] * (S - (zz - zz[0]) / (zz[-1] - zz[0]) * S[-1])
+
+
+def gen_offset_case(rng):
+    """Simulation start strictly inside a forcing interval and at least two model steps after its first frame (the old
+    generator only reaches 0, 1 and - rarely - 2 steps), intervals of 3..60 steps, start in the first / a middle / the last
+    interval; float64, float32 or packed int16 currents; frames in one file or spread over 2-3 files (list or glob)."""
+    nx = rng.randrange(7, 12); ny = rng.randrange(7, 11); N = rng.randrange(3, 7)
+    flat = rng.choice([None, None, 30.0, 75.0])
+    dt = rng.choice([60, 300, 600, 900])
+    nfr = rng.randrange(3, 7)
+
+    def gap():
+        r = rng.random()
+        return rng.randrange(1, 5) if r < 0.35 else (rng.randrange(5, 13) if r < 0.75 else rng.randrange(13, 61))
+    gaps = [gap() for _ in range(nfr - 1)]                      # frame spacing in model steps
+    k = rng.randrange(0, nfr - 1)                               # the interval that contains the start
+    if gaps[k] < 3:
+        gaps[k] = rng.randrange(3, 9)
+    g = gaps[k]
+    how = rng.choice(["two_after", "one_before_next", "inside", "inside"])
+    m = 2 if how == "two_after" else (g - 1 if how == "one_before_next" else rng.randrange(2, g))   # steps after frame k: 2..g-1
+    rel = np.concatenate([[0], np.cumsum(gaps)]).astype(int)
+    fs = [int(x) - int(rel[k]) - m for x in rel]                # model step of every frame; fs[k] = -m, fs[k+1] = g - m >= 1
+    ft = [s_ * dt for s_ in fs]
+    tmax = fs[-1]
+    sched = []; t = 0 if rng.random() < 0.8 else rng.randrange(1, 3)
+    dense = min(g - m + 2, 10)
+    while t <= tmax and len(sched) < 40:
+        sched.append(int(t)); t += 1 if (t < dense or rng.random() < 0.5) else rng.randrange(2, 8)
+    sub = None
+    if rng.random() < 0.5:
+        i0 = rng.randrange(1, nx - 4); i1 = rng.randrange(i0 + 4, nx)
+        j0 = rng.randrange(1, ny - 4); j1 = rng.randrange(j0 + 4, ny)
+        sub = [i0, i1, j0, j1]
+    land = [(rng.randrange(ny), rng.randrange(nx)) for _ in range(rng.randrange(0, 4))]
+    store = rng.choice(["f8", "f8", "f4", "packed"])
+    pack_exp = rng.choice([14, 15, 16])
+    nfiles = 1 if rng.random() < 0.6 else rng.randrange(2, min(3, nfr) + 1)
+    cuts = sorted(rng.sample(range(1, nfr), nfiles - 1))       # first frame of every further file
+    return dict(nx=nx, ny=ny, N=N, flat=flat, dt=dt, frame_times=ft, mode="offset." + how, offset_steps=m, interval_steps=g,
+                interval=("first" if k == 0 else ("last" if k == nfr - 2 else "middle")), sched=sched, subgrid=sub, land=land,
+                store=store, pack_exp=pack_exp, file_cuts=cuts, files_as=rng.choice(["list", "glob"]))
+
+
 def forcing_cases(ctx, G):
-    from . import romsfile
     tmp = tempfile.mkdtemp(prefix="verif_c14_")
     try:
         for c in range(ctx.n(12, 300)):
-            case = gen_forcing_case(ctx.rng)
+            run_forcing_case(ctx, G, tmp, c, gen_forcing_case(ctx.rng), sample=c < 1)
+        # start deep inside a forcing interval (>= 2 steps after the earlier frame), long intervals, float32 / packed currents,
+        # frames spread over several files
+        for c in range(ctx.n(24, 400)):
+            run_forcing_case(ctx, G, tmp, 100000 + c, gen_offset_case(ctx.rng), sample=c < 1)
+    finally:
+        shutil.rmtree(tmp, ignore_errors=True)
+
+
+def run_forcing_case(ctx, G, tmp, c, case, sample=False):
+    from . import romsfile
+    if True:
+        if True:
             nx, ny, N, dt, ft, sched = case["nx"], case["ny"], case["N"], case["dt"], case["frame_times"], case["sched"]
             mask = np.ones((ny, nx))
             for (j, i) in case["land"]:
                 mask[j, i] = 0
-            path = os.path.join(tmp, "f%d.nc" % c)
             t0 = np.datetime64("2015-09-07T01:00:00")
-            out = romsfile.write_roms(path, ctx.rng, nx=nx, ny=ny, N=N, frame_times=ft, t0=str(t0).replace("T", " "), fields=(),
-                                      mask=mask, flat=case["flat"])
-            conf = dict(gridforce=dict(input_file=path), start_time=t0, stop_time=t0 + np.timedelta64(int(ft[-1]), "s"), dt=dt, ibm_forcing=[])
+            store = case.get("store", "f8")
+            # packed currents: int16 with a power-of-two scale_factor and offset 0, so that the decoded value raw*scale is the
+            # same number in float32 and float64 (the reference below uses the decoded values, not the decoding)
+            pack = dict(u=(2.0 ** -case["pack_exp"], 0.0), v=(2.0 ** -case["pack_exp"], 0.0)) if store == "packed" else None
+            bounds = [0] + list(case.get("file_cuts", [])) + [len(ft)]
+            paths = []; outs = []
+            for n_ in range(len(bounds) - 1):
+                path = os.path.join(tmp, "f%d_%d.nc" % (c, n_))
+                o = romsfile.write_roms(path, ctx.rng, nx=nx, ny=ny, N=N, frame_times=ft[bounds[n_]:bounds[n_ + 1]], t0=str(t0).replace("T", " "),
+                                        fields=(), mask=mask, flat=case["flat"], write_grid=(n_ == 0), dtype=("f4" if store == "f4" else "f8"), pack=pack)
+                paths.append(path); outs.append(o)
+            out = dict(outs[0])
+            out["u"] = np.concatenate([np.asarray(o["u"], dtype=float) for o in outs]); out["v"] = np.concatenate([np.asarray(o["v"], dtype=float) for o in outs])
+            if len(paths) == 1:
+                input_file = paths[0]
+            else:
+                input_file = list(paths) if case.get("files_as") == "list" else os.path.join(tmp, "f%d_*.nc" % c)
+            conf = dict(gridforce=dict(input_file=input_file), start_time=t0, stop_time=t0 + np.timedelta64(int(ft[-1]), "s"), dt=dt, ibm_forcing=[])
             if case["subgrid"] is not None:
                 conf["gridforce"]["subgrid"] = list(case["subgrid"])
             cs = dict(case=case)
-            ctx.case(key=("forcing", repr(case)), nontrivial=True, sample=case if c < 1 else None)
+            ctx.case(key=("forcing", repr(case)), nontrivial=True, sample=case if sample else None)
             ctx.branch("forcing.start." + case["mode"]); ctx.branch("forcing.subgrid" if case["subgrid"] else "forcing.whole_grid")
             ctx.branch("forcing.flat" if case["flat"] is not None else "forcing.rough")
+            ctx.branch("forcing.store." + store); ctx.branch("forcing.files.%s" % ("one" if len(paths) == 1 else case.get("files_as")))
+            if "offset_steps" in case:
+                ctx.size("forcing.offset_steps", case["offset_steps"]); ctx.size("forcing.interval_steps", case["interval_steps"])
+                ctx.branch("forcing.start_interval." + case["interval"])
             try:
                 g = G.Grid(conf); f = G.Forcing(conf, g)
             except (Exception, SystemExit) as e:
-                ctx.oracle(False, "C14.forcing.raises", SITE_F, "Grid/Forcing construction raised %r" % (e,), cs); continue
+                ctx.oracle(False, "C14.forcing.raises", SITE_F, "Grid/Forcing construction raised %r" % (e,), cs); return
             i0, i1, j0, j1 = g.i0, g.i1, g.j0, g.j1
             # the sub-grid's own arrays, cut from what was written to the file (independent of Grid/Forcing's slicing):
             # rho cells j0..j1-1 x i0..i1-1; u-faces between two of those cells; currents zero on faces touching land
@@ -286,6 +370,18 @@ def forcing_cases(ctx, G):
             v_fr = (out["v"] * (M[:-1, :] * M[1:, :])[None, None])[:, :, j0:j1 - 1, i0:i1]
             z_w, z_r = g.z_w, g.z_r
             flat = case["flat"] is not None
+            fsteps = [x // dt for x in ft]                      # dt-aligned frames: the model step of every frame, exactly
+            w_fr = {}; wflat_fr = {}
+
+            def frame_w(fr):
+                if fr not in w_fr:
+                    w_fr[fr] = call(G, pn_s, pm_s, u_fr[fr], v_fr[fr], z_w, z_r)
+                return w_fr[fr]
+
+            def frame_wflat(fr):
+                if fr not in wflat_fr:
+                    wflat_fr[fr] = flat_w_interior(pn_s, pm_s, u_fr[fr], v_fr[fr], z_w)
+                return wflat_fr[fr]
             try:
                 for t in sched:
                     f.update(t)
@@ -300,11 +396,14 @@ def forcing_cases(ctx, G):
                     # the served vertical velocity is the one derived from the served currents (on the sub-grid's interior
                     # faces, with the sub-grid's own pm, pn).  By linearity the time-interpolated W equals w of the
                     # time-interpolated currents; float64 file, so only rounding of the accumulated increments: 1e-9 relative.
-                    ref = call(G, pn_s, pm_s, np.asarray(f.U)[:, :, 1:-1], np.asarray(f.V)[:, 1:-1, :], z_w, z_r)
-                    sc = np.abs(ref).max() + 1e-30
-                    err = np.abs(W - ref).max()
-                    ctx.oracle(err <= 1e-9 * sc, "C14.forcing.W_not_w_of_currents", SITE_F,
-                               "step %d: Forcing.W differs by %r (scale %r) from compute_w of the served currents" % (t, err, sc), cst)
+                    # (float32 / packed files: the served currents accumulate one float32 rounding per step while W is kept
+                    # in float64, so this comparison is left to the closed-form references below, which are exact for them.)
+                    if store == "f8":
+                        ref = call(G, pn_s, pm_s, np.asarray(f.U)[:, :, 1:-1], np.asarray(f.V)[:, 1:-1, :], z_w, z_r)
+                        sc = np.abs(ref).max() + 1e-30
+                        err = np.abs(W - ref).max()
+                        ctx.oracle(err <= 1e-9 * sc, "C14.forcing.W_not_w_of_currents", SITE_F,
+                                   "step %d: Forcing.W differs by %r (scale %r) from compute_w of the served currents" % (t, err, sc), cst)
                     if t * dt in ft:
                         fr = ft.index(t * dt)
                         ref = call(G, pn_s, pm_s, u_fr[fr], v_fr[fr], z_w, z_r)
@@ -316,6 +415,35 @@ def forcing_cases(ctx, G):
                         ctx.branch("forcing.step_on_frame")
                     else:
                         ctx.branch("forcing.step_between_frames")
+                    # --- the currents of model step t are the file's frames interpolated linearly in time (closed form, from the
+                    # file's own numbers: frame ka at step fsteps[ka] <= t < fsteps[ka+1], weight al); w is linear in the currents,
+                    # so the vertical velocity of step t is the same interpolation of the two frames' vertical velocities.
+                    # Tolerance: W is float64 and is advanced by <= 60 float64 increments per interval (each rounding <= 2^-53 of
+                    # the frames' scale); the frames' own values enter exactly (float32 -> float64 is exact): 1e-9 of the scale.
+                    ka = max(q for q in range(len(fsteps)) if fsteps[q] <= t)
+                    ka = min(ka, len(fsteps) - 2)
+                    al = (t - fsteps[ka]) / float(fsteps[ka + 1] - fsteps[ka])
+                    wa, wb_ = frame_w(ka), frame_w(ka + 1)
+                    Wexp = wa + al * (wb_ - wa)
+                    scf = max(np.abs(wa).max(), np.abs(wb_).max()) + 1e-30
+                    err = np.abs(W - Wexp).max()
+                    ctx.oracle(err <= 1e-9 * scf, "C14.forcing.W_not_linear_in_time_interpolated_currents", SITE_F,
+                               "step %d (frames %d,%d at steps %d,%d, weight %r): Forcing.W differs by %r (scale %r) from the interpolation of the "
+                               "two frames' vertical velocities" % (t, ka, ka + 1, fsteps[ka], fsteps[ka + 1], al, err, scf), cst)
+                    if flat:
+                        # flat bottom: the statement's closed form (no call of compute_w at all) on the time-interpolated file currents
+                        fa, fb = frame_wflat(ka), frame_wflat(ka + 1)
+                        Fexp = fa + al * (fb - fa)
+                        scf2 = max(np.abs(fa).max(), np.abs(fb).max()) + 1e-30
+                        err = np.abs(W[:, 1:-1, 1:-1] - Fexp).max()
+                        ctx.oracle(err <= 1e-9 * scf2, "C14.forcing.flat_identity", SITE_F,
+                                   "step %d (frames %d,%d, weight %r): Forcing.W differs by %r (scale %r) from the column-integrated divergence of the "
+                                   "layer transports of the step's currents, free-surface part removed" % (t, ka, ka + 1, al, err, scf2), cst)
+                        ctx.branch("forcing.flat_identity")
+                    if fsteps[ka] < 0:
+                        ctx.branch("forcing.step_in_start_interval")
+                    elif "offset_steps" in case:
+                        ctx.branch("forcing.step_after_start_interval")
                     if flat:
                         sc = np.abs(W).max() + 1e-30
                         ctx.oracle(np.abs(W[0]).max() <= 1e-12 * sc and np.abs(W[-1]).max() <= 1e-9 * sc, "C14.forcing.bed_surface_not_zero", SITE_F,
@@ -332,6 +460,10 @@ def forcing_cases(ctx, G):
                         ctx.oracle(val == float(W[kn, jn, in_]), "C14.forcing.wvel_not_W_at_node", SITE_W,
                                    "step %d: wvel at node (k=%d,j=%d,i=%d) = %r, W there = %r" % (t, kn, jn, in_, val, float(W[kn, jn, in_])),
                                    dict(cst, node=(kn, jn, in_), X=X[0], Y=Y[0], Z=Z[0]))
+                        # ... and it is the vertical velocity of the step's currents there (tolerance as above)
+                        ctx.oracle(abs(val - float(Wexp[kn, jn, in_])) <= 1e-9 * scf, "C14.forcing.wvel_not_w_of_step_currents", SITE_W,
+                                   "step %d: wvel at node (k=%d,j=%d,i=%d) = %r, vertical velocity of the step's (time-interpolated) currents there = %r "
+                                   "(scale %r)" % (t, kn, jn, in_, val, float(Wexp[kn, jn, in_]), scf), dict(cst, node=(kn, jn, in_), X=X[0], Y=Y[0], Z=Z[0]))
                     ctx.branch("forcing.steps")
             except Exception as e:
                 ctx.oracle(False, "C14.forcing.raises", SITE_F, "update / compute_w raised %r (schedule %r)" % (e, sched), cs)
@@ -339,8 +471,6 @@ def forcing_cases(ctx, G):
                 f.close()
             except Exception:
                 pass
-    finally:
-        shutil.rmtree(tmp, ignore_errors=True)
 
 
 def run(ctx):
